@@ -158,7 +158,7 @@ fn points_and_promises_case<P: G>(cfg: Cfg) -> Box<dyn Case> {
         if let Some(rp) = refbp::ref_decode(&P::to_bytes(&proof)) {
             let h = built.params.h_base().clone();
             for m in mutate::menu(&rp, false) {
-                if !matches!(m, Mut::PointIdentity(_) | Mut::PointUndecodable(_) | Mut::PointPlusH(_) | Mut::PointCopy(..) | Mut::DropRound | Mut::DupRound | Mut::AppendRounds(_)) {
+                if !matches!(m, Mut::PointIdentity(_) | Mut::PointUndecodable(_) | Mut::PointTopBit(_) | Mut::PointPlusH(_) | Mut::PointCopy(..) | Mut::DropRound | Mut::DupRound | Mut::AppendRounds(_)) {
                     continue;
                 }
                 if let Some(b) = mutate::apply::<P>(&rp, &m, &h) {
